@@ -146,20 +146,31 @@ func (w *WorkerPool) WorkerCount() int {
 
 // Shutdown shuts down the WorkerPool.
 func (w *WorkerPool) Shutdown() *WorkerPool {
-	w.mutex.Lock()
-	defer w.mutex.Unlock()
-
-	if w.isRunning {
-		w.isRunning = false
-
-		for range w.workerCount {
-			w.shutdownSignal <- struct{}{}
-		}
-
+	if w.shutdown() {
+		// wake up the dispatcher after the mutex was released: SignalShutdown synchronizes with the mutex of the
+		// queue, which the dispatcher holds while it evaluates IsRunning (lock order: queue mutex -> mutex).
 		w.Queue.SignalShutdown()
 	}
 
 	return w
+}
+
+// shutdown marks the WorkerPool as not running and signals the workers (returns false if it was not running).
+func (w *WorkerPool) shutdown() (wasRunning bool) {
+	w.mutex.Lock()
+	defer w.mutex.Unlock()
+
+	if !w.isRunning {
+		return false
+	}
+
+	w.isRunning = false
+
+	for range w.workerCount {
+		w.shutdownSignal <- struct{}{}
+	}
+
+	return true
 }
 
 // increasePendingTasks increases the number of pending tasks.
